@@ -199,6 +199,16 @@ def hazard_alphabet():
     t4o = conv_spec(Y, X)
     t4o["ofm"]["tiles"] = dict(h0=8, h1=8, w0=8, addr=[X, X + 64, X + 1024, X + 1088])
     A.append(("convY>X4tiles", t4o))
+    # four tiles of unequal heights (tile 1 taller than tile 0, both shorter than the feature map), tile 1 in another buffer, and transfers
+    # that touch only the rows of tile 1 below the end of tile 0
+    t4b = conv_spec(X, Y)
+    t4b["ifm"]["tiles"] = dict(h0=4, h1=10, w0=8, addr=[X, Z, X + 4 * 128, X + 10 * 128 + 64])
+    A.append(("convX4tilesB>Y", t4b))
+    t4bo = conv_spec(Y, X)
+    t4bo["ofm"]["tiles"] = dict(h0=4, h1=10, w0=8, addr=[X, Z, X + 4 * 128, X + 10 * 128 + 64])
+    A.append(("convY>X4tilesB", t4bo))
+    A.append(("dmaF>Zt1mid", dma_spec(0, 0x2000, 1, Z + 4 * 128, 6 * 128 - 64)))
+    A.append(("dmaZt1mid>W", dma_spec(1, Z + 4 * 128, 1, W, 6 * 128 - 64)))
     rs = pool_spec("REDUCE_SUM", Y, X, k=(1, 1), s=(1, 1), hw=(4, 8), c=24)
     rs["ofm"] = fm((4, 8, 1), X)
     A.append(("rsumY>X_c24", rs))
